@@ -139,3 +139,11 @@ reg("C42", "model_checking", "TLA+ reference ResetCounter (reported state and co
     "must be explained by the reference.",
     "Trusted: TLC, the virtual-time loop. Instants within 2 ms of an expiry may read either state; alternation inside one context window is left open.",
     "DESIGN.md section 5 C42")
+
+reg("C43", "model_checking", "TLA+ spec P2P (transport-layer connection, modulus 16) model-checked with TLC (modulus 4); trace validation of the real Management / P2PConnection against a scripted KNX device under virtual time; known deviation as a named action",
+    "P2P is model-checked against an arbitrary peer (T_ACK only for the expected or preceding number of an open connection, outgoing numbers advance by one, "
+    "responses used once); the real Management/P2PConnection runs every pair of 18 device reactions for three requests, 20-request runs with number wrap-around "
+    "and repetitions, and random scripts; every trace (frames sent and received with numbers, results with type, number and time, exceptions out of the receive path) "
+    "must be a behaviour of the spec. Traces that only the named deviation DEV_ACK_ALL explains are the open known finding.",
+    "Trusted: TLC, the virtual-time loop, the scripted device. Which acknowledgement ends a wait is not constrained (not observable).",
+    "DESIGN.md section 5 C43")
